@@ -2,6 +2,8 @@ import Hertz.Proofs.RouteTop
 import Hertz.Proofs.RouteInsert
 import Hertz.Proofs.RouteEngine
 import Hertz.Proofs.RouteAccept
+import Hertz.Proofs.RouteIterTop
+import Hertz.Proofs.GroupPath
 import Hertz.Gen.RouteConsts
 /-!
 # C06 — the router dispatches to the route the documented priority selects
@@ -459,5 +461,188 @@ example : select exSpec [71, 69, 84] [47, 97, 47, 98] = some (⟨[71, 69, 84], [
 example : NoMatch [⟨[71, 69, 84], [47, 97], 1⟩] [71, 69, 84] [47, 98] := by decide
 /-- a method without tree -/
 example : exEngine.serve [80] [47, 97, 47, 98] = .noRoute := by decide
+
+/-! ## X06: the ITERATIVE `find` of tree.go (the loop as written) and `ServeHTTP` around it
+
+Model: `Hertz/Model/RouteIter.lean` (`stepTop/stepBody/stepParam/stepAny`, `backtrack`, `post`, `run`,
+`findIter`, `Engine.serveIter`).  From here on the correspondence check runs THIS model against the real
+engine (status 301/307/405/404 included); the recursive `find` above is the spec-side intermediate. -/
+open Hertz.Route.Iter
+
+/-- **Iterative = recursive.**  On every well-formed tree (every tree `insert` builds from an accepted
+route set: `EngineOK`, `addRoutes_ok`), for every path and every content of the params backing array:
+the loop of `(*router).find` returns the handlers, full path and parameters of the recursive `find` on
+a hit, and on a miss returns no handlers with `*paramsPointer` re-sliced to length 0 (so a following
+lookup of the 405 loop starts clean). -/
+theorem find_iter_eq_rec (root : Node) (cap : Nat) (hwf : WF root .skind) (hp : PnOK root 0 cap) (path : Bytes)
+    (arr : List Bytes) (harr : arr.length = cap) :
+    (∀ f, find root path cap = .hit f → ∃ t arr' plen',
+        findIter root path arr 0 false = some (.value (some f.handlers) f.fullPath f.params t arr' plen')) ∧
+    (find root path cap = .miss → ∃ t arr', arr'.length = cap ∧
+        findIter root path arr 0 false = some (.value none [] [] t arr' 0)) ∧
+    agrees (find root path cap) (findIter root path arr 0 false) = true :=
+  ⟨(findIter_spec root cap hwf hp path arr harr).1, (findIter_spec root cap hwf hp path arr harr).2,
+   findIter_agrees root cap hwf hp path arr harr⟩
+
+/-- **The Go loop terminates**: within `4 * (number of nodes)` program points (every node is entered at
+most once and left after at most four labelled blocks), without a run-time panic. -/
+theorem find_iter_terminates (root : Node) (cap : Nat) (hwf : WF root .skind) (hp : PnOK root 0 cap) (path : Bytes)
+    (arr : List Bytes) (harr : arr.length = cap) :
+    ∃ o, run path false (4 * size root) .top (initSt root path arr 0) = some o ∧ ∀ s, o ≠ .panic s :=
+  findIter_terminates root cap hwf hp path arr harr
+
+/-- **C06 dispatch, on the iterative model of `ServeHTTP`** (any setting of RedirectTrailingSlash and
+HandleMethodNotAllowed; values not unescaped, i.e. `UseRawPath` off or `UnescapePathValues` off): the
+selected route's handler runs with its pattern and the matched substrings; when no pattern matches
+NO route handler runs and the answer is a 301/307 redirect (only with RedirectTrailingSlash, path not
+`/`, method not CONNECT; 301 iff GET), 405 (only with HandleMethodNotAllowed, exactly when the tree of
+another method finds a handler for the path), or 404 (otherwise). -/
+theorem dispatch_selected_iter (rs : List (Bytes × Bytes × Nat)) (e : Engine)
+    (hlen : ∀ r ∈ rs, r.2.1.length < 65536) (h : Engine.addRoutes {} rs = .ok e) (o : Opts)
+    (hu : o.unescape = false) (m p' : Bytes) :
+    (∃ r ps, Selected (toSpec rs) m (47 :: p') r ps ∧
+        Iter.Engine.serveIter e o m (47 :: p') = .handler ⟨r.handler, r.pattern, ps⟩) ∨
+    (NoMatch (toSpec rs) m (47 :: p') ∧ NoHandlerOutcome e o m (47 :: p') (Iter.Engine.serveIter e o m (47 :: p'))) := by
+  obtain ⟨h1, h2, _⟩ := serveIter_serve e (toSpec rs) (addRoutes_ok rs e hlen h) o hu m p'
+  rcases serve_selected rs e hlen h m (47 :: p') with ⟨r, ps, hs, hf⟩ | ⟨hn, hf⟩
+  · exact Or.inl ⟨r, ps, hs, h1 _ hf⟩
+  · exact Or.inr ⟨hn, h2 hf⟩
+
+/-- **No match, no handler** (the last clause of the property, on the iterative engine model with the
+redirect / 405 / NoRoute options): if no pattern of the method matches, `ServeHTTP` runs no route
+handler, whatever the options. -/
+theorem no_match_no_handler (rs : List (Bytes × Bytes × Nat)) (e : Engine)
+    (hlen : ∀ r ∈ rs, r.2.1.length < 65536) (h : Engine.addRoutes {} rs = .ok e) (o : Opts)
+    (hu : o.unescape = false) (m p' : Bytes) (hno : NoMatch (toSpec rs) m (47 :: p')) (f : Found) :
+    Iter.Engine.serveIter e o m (47 :: p') ≠ .handler f := by
+  rcases dispatch_selected_iter rs e hlen h o hu m p' with ⟨r, ps, hs, _⟩ | ⟨_, hout⟩
+  · exact absurd hno (selected_noMatch_excl _ m _ r ps hs)
+  · intro hc
+    rw [hc] at hout
+    rcases hout with ⟨c, h1, _⟩ | ⟨h1, _⟩ | ⟨h1, _⟩ <;> cases h1
+
+/-- a request path that is empty or does not start with `/` is answered 400 before any lookup -/
+theorem bad_path_400 (e : Engine) (o : Opts) (m : Bytes) (c : UInt8) (p' : Bytes) (hc : c ≠ 47) :
+    Iter.Engine.serveIter e o m [] = .badRequest ∧ Iter.Engine.serveIter e o m (c :: p') = .badRequest := by
+  simp [Iter.Engine.serveIter, hc]
+
+/-- The iterative model has the block order and back-track calls of the source (regenerated). -/
+theorem model_matches_gen_iter :
+    Gen.Route.findLabels = ["Param", "Any"] ∧ Gen.Route.findGotos = ["Param", "Param", "Any"] ∧
+    Gen.Route.findBacktrackArgs = ["skind", "akind"] ∧
+    Gen.Route.backtrackRestores = ["searchIndex", "paramIndex", "searchIndex"] := by decide
+
+/-- **`dispatch_selected_iter` FAILS with unescaping** (`UseRawPath` + `UnescapePathValues`, known
+finding C06-unescape-backtrack, reproduced on the real engine): routes GET `/c/:p/x` and GET `/:y/:x`,
+request `/c/%41/z`.  No pattern matches, yet the handler of `/:y/:x` runs with y=`A`, x=`z`: the value
+`%41` was stored unescaped (`A`, 1 byte) and backtracking subtracted 1 instead of 3 from `searchIndex`. -/
+theorem dispatch_selected_iter_fails_at :
+    let rs : List (Bytes × Bytes × Nat) :=
+      [([71, 69, 84], [47, 99, 47, 58, 112, 47, 120], 1), ([71, 69, 84], [47, 58, 121, 47, 58, 120], 2)]
+    let e := match Engine.addRoutes {} rs with | .ok e => e | .error _ => {}
+    NoMatch (toSpec rs) [71, 69, 84] [47, 99, 47, 37, 52, 49, 47, 122] ∧
+    Iter.Engine.serveIter e { unescape := true } [71, 69, 84] [47, 99, 47, 37, 52, 49, 47, 122]
+      = .handler ⟨2, [47, 58, 121, 47, 58, 120], [([121], [65]), ([120], [122])]⟩ := by decide
+
+/-- non-vacuity: the example engine is accepted, its tree meets `find_iter_eq_rec`'s hypotheses (above),
+and the iterative lookup of `/a/c/d` backtracks out of `/a/:x` into `/*z` -/
+example : findIter exRoot [47, 97, 47, 99, 47, 100] [[]] 0 false =
+    some (.value (some 3) [47, 42, 122] [([122], [97, 47, 99, 47, 100])] false [[97, 47, 99, 47, 100]] 1) := by decide
+example : find exRoot [47, 97, 47, 99, 47, 100] 1 = .hit ⟨3, [47, 42, 122], [([122], [97, 47, 99, 47, 100])]⟩ := by decide
+example : find exRoot [47, 98] 1 = .hit ⟨3, [47, 42, 122], [([122], [98])]⟩ ∧ find exRoot [] 1 = .miss := by decide
+/-- trailing-slash recommendation, 405 and 404 on the example routes plus `POST /p/` -/
+def exEngine2 : Engine :=
+  match Engine.addRoutes {} [([71, 69, 84], [47, 97, 47, 98], 1), ([80, 79, 83, 84], [47, 112, 47], 2)] with
+  | .ok e => e | .error _ => {}
+example : Iter.Engine.serveIter exEngine2 {} [71, 69, 84] [47, 97, 47, 98, 47] = .redirect 301 := by decide
+example : Iter.Engine.serveIter exEngine2 {} [80, 79, 83, 84] [47, 112] = .redirect 307 := by decide
+example : Iter.Engine.serveIter exEngine2 { redirectTrailingSlash := false } [71, 69, 84] [47, 97, 47, 98, 47] = .notFound := by decide
+example : Iter.Engine.serveIter exEngine2 { handleMethodNotAllowed := true } [71, 69, 84] [47, 112, 47] = .notAllowed := by decide
+example : Iter.Engine.serveIter exEngine2 { handleMethodNotAllowed := true } [71, 69, 84] [47, 113] = .notFound := by decide
+example : NoMatch (toSpec [([71, 69, 84], [47, 97, 47, 98], 1), ([80, 79, 83, 84], [47, 112, 47], 2)]) [71, 69, 84] [47, 112, 47] := by decide
+
+/-! ## X06 part 2: `RouterGroup` path assembly (`Model/GroupPath.lean`: `pathClean` = Go `path.Clean`,
+`pathJoin2`, `lastChar`, `joinPaths`, `groupBase`, `absPattern`, `addGroupRoutes`) -/
+open Hertz.Route.GroupPath
+
+/-- **One nesting step is a cleaned join.**  `joinPaths(abs, rel)` (= `calculateAbsolutePath`) with a
+non-empty base: the base itself when `rel` is empty, else `path.Clean(abs + "/" + rel)` with exactly one
+`/` appended iff `rel` ends in `/` and the cleaned path does not (i.e. is not `/`).  It never panics. -/
+theorem group_path_is_join (abs rel : Bytes) (ha : abs ≠ []) :
+    joinPaths abs rel = .ok (if rel = [] then abs else
+      if rel.getLast? = some 47 ∧ (pathClean (abs ++ 47 :: rel)).getLast? ≠ some 47
+      then pathClean (abs ++ 47 :: rel) ++ [47] else pathClean (abs ++ 47 :: rel)) :=
+  joinPaths_spec abs rel ha
+
+/-- The absolute pattern of a route registered through ANY nesting of groups is computed without a
+panic (`lastChar` never sees the empty string) and is not empty. -/
+theorem group_path_no_panic (prefixes : List Bytes) (rel : Bytes) :
+    ∃ p, absPattern prefixes rel = .ok p ∧ p ≠ [] := absPattern_ok prefixes rel
+
+/-- **Routes registered through any nesting of groups = the flat set of their absolute patterns**:
+the flat list always exists, registration through the groups IS registration of the flat list (same
+acceptance, same refusal class, same engine), hence every dispatch result is that of the flat set and
+all the theorems above (`dispatch_selected(_iter)`, `order_independent`, `accepted_iff`, …) apply to it. -/
+theorem route_set_semantics_groups (rs : List (List Bytes × Bytes × Bytes × Nat)) (e0 : Engine) :
+    ∃ flat, flatten rs = some flat ∧ addGroupRoutes e0 rs = Engine.addRoutes e0 flat ∧
+      (∀ e, addGroupRoutes {} rs = .ok e → e0 = {} → ∀ m p, (∀ r ∈ flat, r.2.1.length < 65536) →
+        ((∃ r ps, Selected (toSpec flat) m p r ps ∧ e.serve m p = .handler ⟨r.handler, r.pattern, ps⟩) ∨
+         (NoMatch (toSpec flat) m p ∧ e.serve m p = .noRoute))) := by
+  obtain ⟨flat, hf⟩ := flatten_some rs
+  refine ⟨flat, hf, addGroupRoutes_flat rs e0 flat hf, ?_⟩
+  intro e he _ m p hlen
+  rw [addGroupRoutes_flat rs {} flat hf] at he
+  exact serve_selected flat e hlen he m p
+
+/- TODO-OPEN (X06 part 2): `registered_pattern_clean` (every absolute pattern is `path.Clean` of itself up to
+one trailing slash, starts with `/`, has no empty / `.` / `..` element) and the n-step form of
+`group_path_is_join` (absPattern = Clean of the slash-joined prefixes, trailing slash iff the last non-empty
+part ends in `/`) need idempotence of `pathClean` and `pathClean (pathClean a ++ "/" ++ b) = pathClean (a ++ "/" ++ b)`;
+not proved.  Both are evaluated on the implementation's output for every generated nesting (`Driver/C06g.lean`:
+`specAbs`, `cleanShape`), and `pathClean` is held to the real `path.Clean` on all strings of length ≤ 6 (9) over {/ . a}. -/
+
+example : joinPaths [47, 97, 47] [98, 47] = .ok [47, 97, 47, 98, 47] := by rfl
+example : absPattern [[47, 97, 47], [98]] [] = .ok [47, 97, 47, 98] ∧ absPattern [[47, 97, 47]] [] = .ok [47, 97, 47] ∧
+    absPattern [[], [47, 47, 97], [46, 46]] [99, 47, 47] = .ok [47, 99, 47] := ⟨by rfl, by rfl, by rfl⟩
+example : pathClean [47, 97, 47, 46, 46, 47, 46, 47, 98] = [47, 98] ∧ pathClean [] = [46] ∧
+    pathClean [97, 47, 46, 46, 47, 46, 46] = [46, 46] := by decide
+example : addGroupRoutes {} [([[47, 118, 49]], [71, 69, 84], [47, 58, 120], 1), ([[47, 118, 49], [97, 47]], [71, 69, 84], [98], 2)] =
+    Engine.addRoutes {} [([71, 69, 84], [47, 118, 49, 47, 58, 120], 1), ([71, 69, 84], [47, 118, 49, 47, 97, 47, 98], 2)] := by rfl
+
+/-- **405 / 404 as a function of the route SET** (completes `dispatch_selected_iter`): when no route handler
+runs and the answer is 405, some registered route of ANOTHER method matches the path; when it is 404 with
+HandleMethodNotAllowed on, no registered route of any other method matches. -/
+theorem status_405_404_of_route_set (rs : List (Bytes × Bytes × Nat)) (e : Engine)
+    (hlen : ∀ r ∈ rs, r.2.1.length < 65536) (h : Engine.addRoutes {} rs = .ok e) (o : Opts)
+    (hu : o.unescape = false) (m p' : Bytes) (hno : NoMatch (toSpec rs) m (47 :: p')) :
+    (Iter.Engine.serveIter e o m (47 :: p') = .notAllowed →
+        ∃ r ∈ toSpec rs, r.method ≠ m ∧ (r.matches r.method (47 :: p')).isSome = true) ∧
+    (Iter.Engine.serveIter e o m (47 :: p') = .notFound → o.handleMethodNotAllowed = true →
+        ∀ r ∈ toSpec rs, r.method ≠ m → r.matches r.method (47 :: p') = none) := by
+  rcases dispatch_selected_iter rs e hlen h o hu m p' with ⟨r, ps, hs, _⟩ | ⟨_, hout⟩
+  · exact absurd hno (selected_noMatch_excl _ m _ r ps hs)
+  · exact noHandler_routes e (toSpec rs) (addRoutes_ok rs e hlen h) o m (47 :: p') _ hout
+
+/-- **Registered patterns are rooted**: the absolute pattern of a route registered through any nesting of
+groups starts with `/` (`path.Clean` of a rooted path is rooted), so `Engine.addRoute`'s assertion
+"path must begin with '/'" never fires for a registration made through the group API. -/
+theorem registered_pattern_rooted (prefixes : List Bytes) (rel p : Bytes) (h : absPattern prefixes rel = .ok p) :
+    p.head? = some 47 := absPattern_rooted prefixes rel p h
+
+example : absPattern [[97], [46, 46], [46, 46]] [58, 120] = .ok [47, 58, 120] := by rfl
+example : NoMatch (toSpec [([71, 69, 84], [47, 97, 47, 98], 1), ([80, 79, 83, 84], [47, 112, 47], 2)]) [71, 69, 84] [47, 113] := by decide
+
+/-- the `_partial` companion of `dispatch_selected_iter_fails_at` under the naming convention: the dispatch
+statement with the excluding hypothesis "parameter values are not unescaped" (`UseRawPath` off — the
+default — or `UnescapePathValues` off) spelled out -/
+theorem dispatch_selected_iter_partial (rs : List (Bytes × Bytes × Nat)) (e : Engine)
+    (hlen : ∀ r ∈ rs, r.2.1.length < 65536) (h : Engine.addRoutes {} rs = .ok e) (o : Opts)
+    (hu : o.unescape = false) (m p' : Bytes) :
+    (∃ r ps, Selected (toSpec rs) m (47 :: p') r ps ∧
+        Iter.Engine.serveIter e o m (47 :: p') = .handler ⟨r.handler, r.pattern, ps⟩) ∨
+    (NoMatch (toSpec rs) m (47 :: p') ∧ NoHandlerOutcome e o m (47 :: p') (Iter.Engine.serveIter e o m (47 :: p'))) :=
+  dispatch_selected_iter rs e hlen h o hu m p'
+example : ({ } : Opts).unescape = false ∧ ({ redirectTrailingSlash := false, handleMethodNotAllowed := true } : Opts).unescape = false :=
+  ⟨rfl, rfl⟩
 
 end Hertz.Props.C06
